@@ -74,6 +74,10 @@ func (f Float32) ToString() String {
 }
 
 func (f Float32) Hash() UInt64 {
+	if f == 0 {
+		// 0.0 and -0.0 are equal, they have to hash alike
+		f = 0
+	}
 	d := xxhash.New()
 	b := make([]byte, 4)
 	binary.LittleEndian.PutUint32(b, math.Float32bits(float32(f)))
